@@ -309,15 +309,27 @@ def in_place_mutators(bi, carriers):
 
 
 def return_operands(bi, kinds):
-    """(block, operand) of the innermost payload operand of every `_0 = Poll::Ready(..)`-style
-    assignment whose classified kind is in kinds."""
+    """(block, operand) of the payload operand of every `Poll::Ready(..)`-style aggregate that may
+    flow into `_0` (directly, or through moves of locals) and whose classified kind is in kinds."""
+    from ..mir import op_place
     out = []
-    body = bi.body
-    for b, i, rv in bi.assigns_to_return():
+    seen = set()
+
+    def from_rv(b, rv, depth):
         if rv.get("k") == "agg" and rv["fields"]:
             t = bi.T.of_rvalue(rv, 0)
             if classify(t)[0] in kinds:
                 out.append((b, rv["fields"][0]))
+        elif rv.get("k") == "use" and depth < 6:
+            p = op_place(rv["op"])
+            if p is not None and not p["p"] and p["l"] not in seen:
+                seen.add(p["l"])
+                for d in _live_defs(bi, p["l"]):
+                    if d[2] == "assign":
+                        from_rv(d[0], d[3], depth + 1)
+
+    for b, i, rv in bi.assigns_to_return():
+        from_rv(b, rv, 0)
     return out
 
 
@@ -336,3 +348,27 @@ def rule_integrity(ctx, bi, rule, where, kinds, what):
         ctx.check(not muts, rule, where, "%s is not modified in place between its production and the return" % what,
                   site=bi.describe(b), path=["%s gets &mut _%d" % (s.where, l) for s, l in muts[:4]])
     return len(ops)
+
+
+def edges_contradicting(bi, phi_term, def_block, labels):
+    """Edges of discriminant switches on a multi-definition local (and on its payload chain) that
+    contradict the variant chain `labels` the local was given at `def_block`, valid as long as no
+    other definition of the local is reachable from def_block."""
+    body = bi.body
+    if phi_term[0] != "phi":
+        return []
+    L = phi_term[1]
+    others = [d[0] for d in _live_defs(bi, L) if d[0] != def_block]
+    r = body.reach(body.succs(def_block))
+    if any(x in r for x in others):
+        return []
+    out = []
+    subj = phi_term
+    for lab in labels:
+        for e in bi.switches:
+            if e["kind"] == "discr" and e["subject"] == subj and e["block"] in r:
+                for l2, tb in e["edges"].items():
+                    if l2 != lab and tb is not None:
+                        out.append((e["block"], tb))
+        subj = ("field", ("variant", subj, lab), 0)
+    return out
